@@ -464,9 +464,9 @@ func ruleC07_3(c *Ctx) {
 func ruleC07_4(c *Ctx) {
 	const R = "R-C07-4"
 	for _, e := range c.entryPoints() {
-		th := firstCall(e.f, "in_toto.VerifyLinkSignatureThesholds")
-		ok2, d2 := argFrom(th, 2, "in_toto.LoadLayoutCertificates", 0)
-		ok3, d3 := argFrom(th, 3, "in_toto.LoadLayoutCertificates", 1)
+		th := c.stage(e.f, "in_toto.VerifyLinkSignatureThesholds")
+		ok2, d2 := c.stageArgFrom(th, 2, "in_toto.LoadLayoutCertificates", 0)
+		ok3, d3 := c.stageArgFrom(th, 3, "in_toto.LoadLayoutCertificates", 1)
 		c.check(ok2 && ok3, R, fname(e.f), "threshold check receives (root pool, intermediate pool) = LoadLayoutCertificates #0, #1", e.f.Pos(), "def-use edges present", "pools passed to the threshold check: "+d2+" / "+d3)
 		if lc := firstCall(e.f, "in_toto.LoadLayoutCertificates"); lc != nil {
 			k, d := c.layoutValue(e, lc.Common().Args[0], lc, 0)
@@ -492,42 +492,223 @@ func ruleC07_4(c *Ctx) {
 			c.check(org(a[1]) == "p2" && org(a[2]) == "p3" && org(a[3]) == "p4", R, fname(f), "root ids and pools passed on to checkRoots", call.Pos(), "p2, p3, p4", "passes "+org(a[1])+", "+org(a[2])+", "+org(a[3]))
 		}
 	}
+	c.poolProvenance(R)
+}
+
+type poolFeed struct {
+	data  string // access path of the PEM data in LoadLayoutCertificates' frame
+	pos   ssa.Instruction
+	fn    *ssa.Function
+	fails bool // a failed append leads to failure
+}
+
+// poolProvenance analyses LoadLayoutCertificates (looking through one in_toto helper): the two returned pools are
+// never nil, the root pool is fed only from layout.RootCas, intermediates only feed the second pool, a failed
+// append fails.
+func (c *Ctx) poolProvenance(R string) {
 	f := c.lookup("in_toto.LoadLayoutCertificates")
 	if f == nil {
 		c.undecided(R, "in_toto.LoadLayoutCertificates", "anchor", 0, "not found")
 		return
 	}
 	fn := fname(f)
-	var rootPool, interPool ssa.Value
-	for _, r := range c.nilErrReturns(f) {
-		rootPool, interPool = resolve(r.Results[0], r), resolve(r.Results[1], r)
+	isHelper := func(g *ssa.Function) bool {
+		return g != nil && g.Blocks != nil && g.Pkg == c.pkg("in_toto") && g != f
 	}
-	if rootPool == nil || interPool == nil || rootPool == interPool {
-		c.bad(R, fn, "two distinct pools returned", f.Pos(), "root and intermediate pool are not two distinct NewCertPool() values")
+	// mayBeNil: can pool value v be nil at instruction `at` (block blk)?
+	var mayBeNil func(fr *ssa.Function, v ssa.Value, at ssa.Instruction, blk *ssa.BasicBlock, depth int) (bool, string)
+	mayBeNil = func(fr *ssa.Function, v ssa.Value, at ssa.Instruction, blk *ssa.BasicBlock, depth int) (bool, string) {
+		r := resolve(v, at)
+		if c.nonNilAt(r, blk) {
+			return false, ""
+		}
+		switch x := r.(type) {
+		case *ssa.Const:
+			if x.Value == nil {
+				return true, "a nil pool"
+			}
+		case *ssa.Call:
+			if calleeName(x) == "crypto/x509.NewCertPool" {
+				return false, ""
+			}
+		case *ssa.Phi:
+			for i, e := range x.Edges {
+				pb := x.Block().Preds[i]
+				if c.nonNilAt(resolve(e, x), pb) {
+					continue
+				}
+				if edgeNonNil(pb, x.Block(), resolve(e, x)) {
+					continue
+				}
+				if nilp, why := mayBeNil(fr, e, x, pb, depth+1); nilp {
+					return true, why
+				}
+			}
+			return false, ""
+		case *ssa.Extract:
+			call, ok := x.Tuple.(*ssa.Call)
+			if !ok {
+				break
+			}
+			g := call.Call.StaticCallee()
+			if !isHelper(g) || depth > 2 {
+				break
+			}
+			for _, ret := range returnsOf(g) {
+				// skip failure returns: non-nil error, or a bool result that is false while the caller knows it true
+				skip := false
+				if ei := errIndex(g); ei >= 0 && !c.mayBeNilErr(ret.Results[ei], ret.Block(), 0) {
+					skip = true
+				}
+				for k := 0; k < len(ret.Results); k++ {
+					if cv, isC := ret.Results[k].(*ssa.Const); isC && isBool(cv.Type().Underlying()) && cv.Value.String() == "false" {
+						if okv := extractOf(call, k); okv != nil && c.condAt(okv, true, blk) {
+							skip = true
+						}
+					}
+				}
+				if skip {
+					continue
+				}
+				if nilp, why := mayBeNil(g, ret.Results[x.Index], ret, ret.Block(), depth+1); nilp {
+					return true, why + " returned by " + fname(g) + " (" + c.pos(instrPos(ret)) + ")"
+				}
+			}
+			return false, ""
+		}
+		return true, "a pool of unknown origin: " + short(org(v))
+	}
+	var rootV, interV ssa.Value
+	var retInstr *ssa.Return
+	for _, r := range c.nilErrReturns(f) {
+		rootV, interV, retInstr = r.Results[0], r.Results[1], r
+	}
+	if retInstr == nil {
+		c.bad(R, fn, "success return", f.Pos(), "no success return")
 		return
 	}
-	for _, ap := range callsIn(f, "(*crypto/x509.CertPool).AppendCertsFromPEM") {
-		a := ap.Common().Args
-		pool := resolve(a[0], ap)
-		data := org(a[1])
-		switch {
-		case strings.HasPrefix(data, "p0.RootCas{*}"):
-			c.check(pool == rootPool && data == "p0.RootCas{*}.KeyVal.Certificate", R, fn, "layout.RootCas certificates go to the root pool", ap.Pos(), data, "layout root CA data goes to the other pool / other field: "+data)
-		case strings.HasPrefix(data, "p0.IntermediateCas{*}"):
-			c.check(pool == interPool && data == "p0.IntermediateCas{*}.KeyVal.Certificate", R, fn, "layout.IntermediateCas certificates go to the intermediate pool", ap.Pos(), data, "layout intermediates reach the ROOT pool (they would become trust anchors)")
-		case strings.HasPrefix(data, "p1"):
-			c.check(pool == interPool, R, fn, "caller-supplied intermediates go to the intermediate pool", ap.Pos(), data, "caller-supplied PEMs reach the ROOT pool (they would become trust anchors)")
-		default:
-			c.bad(R, fn, "AppendCertsFromPEM of "+short(data), ap.Pos(), "certificate data of unknown provenance is added to a pool")
-		}
-		okFail := false
-		for _, cu := range condUsers(ap.Value(), false) {
-			if c.failing(branchTaken(cu, false)) {
-				okFail = true
-			}
-		}
-		c.check(okFail, R, fn, "failed append fails ("+short(data)+")", ap.Pos(), "!ok side is a failing continuation", "an unparsable CA certificate is silently skipped")
+	for i, v := range []ssa.Value{rootV, interV} {
+		name := []string{"root pool", "intermediate pool"}[i]
+		nilp, why := mayBeNil(f, v, retInstr, retInstr.Block(), 0)
+		c.check(!nilp, R, fn, name+" is never nil", instrPos(retInstr), "x509.NewCertPool() on every success path", "LoadLayoutCertificates can return "+why+" as "+name+": a nil root pool makes crypto/x509 fall back to the host's system roots")
 	}
+	// feeds
+	feedsOf := func(pool ssa.Value) []poolFeed {
+		var out []poolFeed
+		target := resolve(pool, retInstr)
+		inPhi := func(v ssa.Value) bool {
+			return v == target || derives(target, func(x ssa.Value) bool { return x == v }, false)
+		}
+		for _, ap := range callsIn(f, "(*crypto/x509.CertPool).AppendCertsFromPEM") {
+			a := ap.Common().Args
+			if !inPhi(resolve(a[0], ap)) {
+				continue
+			}
+			fails := false
+			for _, cu := range condUsers(ap.Value(), false) {
+				fails = fails || c.failing(branchTaken(cu, false))
+			}
+			out = append(out, poolFeed{org(a[1]), ap, f, fails})
+		}
+		// through a helper whose result is (part of) this pool
+		derives(target, func(x ssa.Value) bool {
+			ex, ok := x.(*ssa.Extract)
+			if !ok {
+				return false
+			}
+			call, ok := ex.Tuple.(*ssa.Call)
+			if !ok {
+				return false
+			}
+			g := call.Call.StaticCallee()
+			if !isHelper(g) {
+				return false
+			}
+			for _, ap := range callsIn(g, "(*crypto/x509.CertPool).AppendCertsFromPEM") {
+				a := ap.Common().Args
+				// receiver is what g returns at ex.Index
+				isRet := false
+				for _, ret := range returnsOf(g) {
+					if resolve(ret.Results[ex.Index], ret) == resolve(a[0], ap) {
+						isRet = true
+					}
+				}
+				if !isRet {
+					continue
+				}
+				d := org(a[1])
+				for k := range g.Params {
+					d = strings.ReplaceAll(d, fmt.Sprintf("p%d", k), "\x00"+fmt.Sprint(k)+"\x00")
+				}
+				for k := range g.Params {
+					if k < len(call.Call.Args) {
+						d = strings.ReplaceAll(d, "\x00"+fmt.Sprint(k)+"\x00", org(call.Call.Args[k]))
+					}
+				}
+				// failure: the false side returns a failure value and the caller fails on it
+				fails := false
+				for _, cu := range condUsers(ap.Value(), false) {
+					fb := branchTaken(cu, false)
+					if ret, ok := fb.Instrs[len(fb.Instrs)-1].(*ssa.Return); ok {
+						for k, rv := range ret.Results {
+							if cv, isC := rv.(*ssa.Const); isC && isBool(cv.Type().Underlying()) && cv.Value.String() == "false" {
+								if okv := extractOf(call, k); okv != nil {
+									for _, cu2 := range condUsers(okv, false) {
+										fails = fails || c.failing(branchTaken(cu2, false))
+									}
+								}
+							}
+						}
+						if ei := errIndex(g); ei >= 0 && !c.mayBeNilErr(ret.Results[ei], fb, 0) {
+							if e := errResult(call); e != nil {
+								for _, br := range errBranches(e) {
+									fails = fails || c.failing(br.NonNil)
+								}
+							}
+						}
+					}
+				}
+				out = append(out, poolFeed{d, ap, g, fails})
+			}
+			return false
+		}, false)
+		return out
+	}
+	rootFeeds, interFeeds := feedsOf(rootV), feedsOf(interV)
+	okRoot := len(rootFeeds) > 0
+	for _, fd := range rootFeeds {
+		c.check(fd.data == "p0.RootCas{*}.KeyVal.Certificate", R, fn, "root pool is fed from layout.RootCas only", fd.pos.Pos(), fd.data, "certificate data "+short(fd.data)+" is added to the ROOT pool (it would become a trust anchor)")
+		c.check(fd.fails, R, fn, "failed append fails ("+short(fd.data)+")", fd.pos.Pos(), "!ok side is a failing continuation", "an unparsable CA certificate is silently skipped")
+	}
+	c.check(okRoot, R, fn, "layout.RootCas certificates reach the root pool", f.Pos(), fmt.Sprintf("%d append site(s)", len(rootFeeds)), "no AppendCertsFromPEM feeds the returned root pool")
+	seen := map[string]bool{}
+	for _, fd := range interFeeds {
+		seen[fd.data] = true
+		okSrc := fd.data == "p0.IntermediateCas{*}.KeyVal.Certificate" || fd.data == "p1[*]"
+		c.check(okSrc, R, fn, "intermediate pool is fed from layout.IntermediateCas and the caller's PEMs", fd.pos.Pos(), fd.data, "certificate data "+short(fd.data)+" is added to the intermediate pool")
+		c.check(fd.fails, R, fn, "failed append fails ("+short(fd.data)+")", fd.pos.Pos(), "!ok side is a failing continuation", "an unparsable intermediate certificate is silently skipped")
+	}
+	c.check(seen["p0.IntermediateCas{*}.KeyVal.Certificate"] && seen["p1[*]"], R, fn, "layout and caller intermediates both reach the intermediate pool", f.Pos(), "2 sources", "an intermediate source is not loaded")
+	// the two pools are distinct objects
+	c.check(resolve(rootV, retInstr) != resolve(interV, retInstr), R, fn, "root and intermediate pools are distinct", instrPos(retInstr), "two pools", "one pool is returned for both roles")
+}
+
+// edgeNonNil: the edge pb->succ itself establishes v != nil.
+func edgeNonNil(pb, succ *ssa.BasicBlock, v ssa.Value) bool {
+	refs := v.Referrers()
+	if refs == nil {
+		return false
+	}
+	for _, r := range *refs {
+		bo, ok := r.(*ssa.BinOp)
+		if !ok || !(isNilConst(bo.X) || isNilConst(bo.Y)) {
+			continue
+		}
+		if bo.Op == token.NEQ && edgeFact(pb, succ, bo, true) || bo.Op == token.EQL && edgeFact(pb, succ, bo, false) {
+			return true
+		}
+	}
+	return false
 }
 
 func ruleC07_5(c *Ctx) {
